@@ -14,6 +14,7 @@ import (
 	"github.com/mycoria/mycoria/config"
 	"github.com/mycoria/mycoria/frame"
 	"github.com/mycoria/mycoria/m"
+	"github.com/mycoria/mycoria/state"
 
 	"verifharness/core"
 	"verifharness/env"
@@ -131,6 +132,11 @@ var msgNames = []string{"request", "response", "ack"}
 
 // exchangeTraffic sends n frames each way over an established link pair and checks byte-identical arrival.
 func exchangeTraffic(res *core.Result, s *session, r *rand.Rand, n int, desc string) bool {
+	return exchangeTrafficSig(res, s, r, n, desc, "")
+}
+
+// exchangeTrafficSig is exchangeTraffic with a suffix for the violation signatures (the history that led here).
+func exchangeTrafficSig(res *core.Result, s *session, r *rand.Rand, n int, desc, sigSuffix string) bool {
 	send := func(from, to *wire.Router, link interface{ Send(frame.Frame) error }, dir wire.Dir) bool {
 		var want [][]byte
 		before := s.w.SentCount(dir)
@@ -150,17 +156,23 @@ func exchangeTraffic(res *core.Result, s *session, r *rand.Rand, n int, desc str
 			time.Sleep(200 * time.Microsecond)
 		}
 		wire.WaitIdle(s.w, dir, 20*time.Second)
+		// (the wire is idle: every byte was read and the reader waits for more, so a frame that is going to arrive has
+		// arrived; the grace below only covers the hand-over to the channel)
+		lostAfter := 10 * time.Second
+		if sigSuffix != "" {
+			lostAfter = 1500 * time.Millisecond
+		}
 		for i := 0; i < n; i++ {
 			select {
 			case f := <-to.Upstream:
 				got, _ := f.FrameDataWithMargins(0, 0)
 				if !bytes.Equal(got, want[i]) {
-					res.Violate("link-traffic-differs", desc+": a frame sent over the established link arrived different", map[string]any{"config": desc})
+					res.Violate("link-traffic-differs"+sigSuffix, desc+": a frame sent over the established link arrived different", map[string]any{"config": desc})
 					return false
 				}
 				f.ReturnToPool()
-			case <-time.After(10 * time.Second):
-				res.Violate("link-traffic-lost", fmt.Sprintf("%s: frame %d of %d sent over the freshly established link did not arrive", desc, i, n), map[string]any{"config": desc})
+			case <-time.After(lostAfter):
+				res.Violate("link-traffic-lost"+sigSuffix, fmt.Sprintf("%s: frame %d of %d sent over the freshly established link did not arrive", desc, i, n), map[string]any{"config": desc, "case_id": desc})
 				return false
 			}
 		}
@@ -226,6 +238,105 @@ func honestMatrix(res *core.Result, r *rand.Rand, idA, idB *m.Address) {
 			}
 			res.Case("honest:"+desc, !c.expect)
 			s.close()
+		}
+	}
+}
+
+// keySetupDuringHandshake: while the two routers shake hands, an end-to-end key setup between the same two routers
+// completes (a hello exchange that travelled over another route): at a chosen handshake message, before it is handed
+// to its receiver, one router replaces its session keys for the other by those of a fresh exchange - the initiator
+// installs a detached session, the responder re-keys in place - exactly what the hello handler does. The link
+// handshake may fail on that; if both ends complete and register the link, traffic must cross it in both directions.
+func keySetupDuringHandshake(res *core.Result, r *rand.Rand, idA, idB *m.Address) {
+	for _, c := range classes() {
+		if !c.expect {
+			continue
+		}
+		for _, dir := range []wire.Dir{wire.AtoB, wire.BtoA} {
+			for idx := 0; idx < 3; idx++ {
+				for _, initiatorIsA := range []bool{true, false} {
+					desc := fmt.Sprintf("config %s: end-to-end key setup (initiated by A=%v) completes before handshake message %d %s is delivered", c.name, initiatorIsA, idx, dir)
+					a, b := wire.NewRouter(idA, c.a), wire.NewRouter(idB, c.b)
+					fired := false
+					var evErr error
+					plan := func(d wire.Dir, i int, msg []byte) [][]byte {
+						if d == dir && i == idx && !fired {
+							fired = true
+							ini, rsp, iniFar, rspFar := a, b, idB, idA
+							if !initiatorIsA {
+								ini, rsp, iniFar, rspFar = b, a, idA, idB
+							}
+							si, sr := ini.Inst.StateV.GetSession(iniFar.IP), rsp.Inst.StateV.GetSession(rspFar.IP)
+							if si == nil || sr == nil {
+								evErr = fmt.Errorf("no session yet")
+								return [][]byte{msg}
+							}
+							fresh := state.NewEncryptionSession()
+							kx, kxt, err := fresh.InitKeyClientStart()
+							if err == nil {
+								var kx2 []byte
+								var kxt2 string
+								kx2, kxt2, err = sr.Encryption().InitKeyServer(kx, kxt)
+								if err == nil {
+									err = fresh.InitKeyClientComplete(kx2, kxt2)
+								}
+							}
+							if err != nil {
+								evErr = err
+								return [][]byte{msg}
+							}
+							fresh.InitCleanup()
+							si.SetEncryptionSession(fresh)
+						}
+						return [][]byte{msg}
+					}
+					s := runHandshake(idA, idB, c.a, c.b, plan, a, b)
+					wit := map[string]any{"config": desc, "errA": fmt.Sprint(s.ra.Err), "errB": fmt.Sprint(s.rb.Err), "case_id": desc}
+					if !s.ok {
+						res.Count("key_setup_during_handshake_watchdog", 1)
+						s.close()
+						continue
+					}
+					if pa := append(a.PanicAlerts(), b.PanicAlerts()...); len(pa) > 0 {
+						res.Violate("setup-worker-panic:key-setup-during-handshake", desc+": "+pa[0], wit)
+						s.close()
+						return
+					}
+					switch {
+					case !fired || evErr != nil:
+						res.Count("key_setup_during_handshake_not_applicable", 1)
+					case s.ra.Link != nil && s.rb.Link != nil && s.ra.Err == nil && s.rb.Err == nil:
+						who := "the-accepting-router"
+						if initiatorIsA {
+							who = "the-dialling-router"
+						}
+						if !exchangeTrafficSig(res, s, r, 6, desc, fmt.Sprintf(":e2e-key-setup-initiated-by-%s-completes-before-handshake-message-%d-%s", who, idx, map[wire.Dir]string{wire.AtoB: "of-the-dialling-router", wire.BtoA: "of-the-accepting-router"}[dir])) {
+							s.close()
+							continue // the other positions are still judged
+						}
+						res.Count("key_setup_during_handshake_link_works", 1)
+					default:
+						for _, x := range []struct {
+							rt  *wire.Router
+							far *m.Address
+							err error
+						}{{a, idB, s.ra.Err}, {b, idA, s.rb.Err}} {
+							if x.err == nil {
+								continue
+							}
+							if reg, what := registered(x.rt, x.far); reg {
+								res.Violate("link-registered-by-failed-setup", fmt.Sprintf("%s: a router whose setup failed (%v) has something registered: %s", desc, x.err, what), wit)
+								s.close()
+								return
+							}
+						}
+						res.Count("key_setup_during_handshake_setup_refused", 1)
+					}
+					res.Case("kx-during-handshake:"+desc, true)
+					s.close()
+					time.Sleep(3 * time.Millisecond)
+				}
+			}
 		}
 	}
 }
@@ -597,6 +708,7 @@ func run(c *core.Ctx) {
 	// honest matrix, both identity orders
 	honestMatrix(res, core.RNG("c04/honest"), idA, idB)
 	honestMatrix(res, core.RNG("c04/honest2"), idB, idA)
+	keySetupDuringHandshake(res, core.RNG("c04/kxduring"), idA, idB)
 
 	faultClasses := []cfgClass{classes()[2], classes()[0]}
 	if c.Tier == core.Thorough {
